@@ -277,6 +277,10 @@ fn alphabet(wbits: usize, rng: &mut Rng, reduced: bool) -> Vec<WOp> {
         v.push(WOp::Unary(x));
     }
     v.push(WOp::Flush);
+    // bytes written through the std::io::Write view are bits of the stream like any others
+    for len in if reduced { vec![8usize] } else { vec![1usize, 7, 8, 9, 16, 17, 24] } {
+        v.push(WOp::IoWrite((0..len).map(|i| (rng.next() as u8) | (i as u8 & 1)).collect()));
+    }
     v
 }
 
@@ -294,6 +298,11 @@ fn fill_ops(fill: usize, rng: &mut Rng) -> Vec<WOp> {
 }
 
 pub fn random_ops(rng: &mut Rng, len: usize, wbits: usize, with_flush: bool) -> Vec<WOp> {
+    random_ops_io(rng, len, wbits, with_flush, false)
+}
+
+/// like random_ops, optionally with byte writes through the std::io::Write view
+pub fn random_ops_io(rng: &mut Rng, len: usize, wbits: usize, with_flush: bool, with_io: bool) -> Vec<WOp> {
     let mut ops = vec![];
     for _ in 0..len {
         let r = rng.below(100);
@@ -312,6 +321,9 @@ pub fn random_ops(rng: &mut Rng, len: usize, wbits: usize, with_flush: bool) -> 
         } else if r < 92 {
             let x = if rng.chance(1, 5) { rng.below(3 * wbits as u64 + 3) } else { rng.log_uniform(7) };
             ops.push(WOp::Unary(x));
+        } else if r < 95 && with_io {
+            let len = *rng.pick(&[0usize, 1, 3, 8, 9, 16, 17, 25]);
+            ops.push(WOp::IoWrite((0..len).map(|_| rng.next() as u8).collect()));
         } else if with_flush {
             ops.push(WOp::Flush);
         } else {
@@ -402,7 +414,7 @@ pub fn run(ctx: &Ctx) -> Report {
         let nhist = ctx.pick(3, 3000, 30000);
         for hix in 0..nhist {
             let len = 1 + rng.below(ctx.pick(10, 60, 200)) as usize;
-            let ops = random_ops(&mut rng, len, wbits, hix % 3 == 0);
+            let ops = random_ops_io(&mut rng, len, wbits, hix % 3 == 0, true);
             for be in &backends {
                 let fins: &[Fin] = match be {
                     WBackend::Rec(_) | WBackend::AdSink => &[Fin::Flush2, Fin::Drop, Fin::IntoInner],
